@@ -18,6 +18,8 @@ def wave_circuits(tier, seed, nrand_quick=60, nrand_thorough=1200, max_gates=10)
         rng = G.rng_for(seed + 101, k)
         c = G.random_circuit(rng, n_gates=rng.randrange(1, max_gates), n_in=rng.randrange(1, 4), n_ff=rng.randrange(0, 2),
                              n_latch=rng.randrange(0, 2), p_unconn=0.05)
+        if logic_drv.has_arity_gap(c):
+            continue
         yield c, ('random', seed + 101, k)
 
 
